@@ -176,6 +176,22 @@ def check_theorems(pid, scratch):
     return out
 
 
+def run_coqchk(pid):
+    """coqchk -o on CTM.Props.<pid> (re-checks the .vo files with the independent checker and prints the
+    axioms they rely on).  ok iff it succeeds and lists no axiom."""
+    try:
+        r = subprocess.run(['coqchk', '-silent', '-o', '-Q', str(COQ), 'CTM', f'CTM.Props.{pid}'],
+                           capture_output=True, text=True, timeout=3000)
+    except subprocess.TimeoutExpired:
+        return {'ok': False, 'detail': 'coqchk timed out', 'cmd': 'coqchk -silent -o'}
+    out = r.stdout + r.stderr
+    m = re.search(r'\* Axioms:\s*(.*?)\n\s*\n', out, flags=re.S)
+    axioms = m.group(1).strip() if m else '?'
+    ok = r.returncode == 0 and axioms == '<none>' and 'type-in-type: <none>' in out.replace('\n', ' ')
+    return {'ok': ok, 'axioms': axioms, 'detail': out[-3000:] if not ok else 'Axioms: <none>',
+            'cmd': f'coqchk -silent -o -Q {COQ} CTM CTM.Props.{pid}'}
+
+
 # ---------------------------------------------------------------- known findings
 def load_known():
     p = VERIF / 'known_findings.json'
@@ -272,6 +288,15 @@ class Check:
             self.violation('proof obligation no longer checks: ' + f,
                            {'class': 'proof', 'theorem_file': f'coq/Props/{self.pid}.v', 'detail': f},
                            no_input=True)
+        # thorough tier: re-check the compiled property file and everything it depends on with the
+        # independent checker coqchk and require an empty axiom list
+        self.coqchk = None
+        if self.tier == 'thorough' and not self.thm['failures']:
+            self.coqchk = run_coqchk(self.pid)
+            if not self.coqchk['ok']:
+                self.violation('coqchk does not accept the compiled property file or reports axioms: ' + self.coqchk['detail'][-600:],
+                               {'class': 'proof-coqchk', 'theorem_file': f'coq/Props/{self.pid}.v', 'detail': self.coqchk['detail'][-3000:]},
+                               no_input=True)
         ncross, err = coq_crosscheck([c for c, _ in self._cross], [r for _, r in self._cross], self.scratch)
         if err:
             self.violation('extracted model and vm_compute disagree (or cases.v failed)',
@@ -294,6 +319,7 @@ class Check:
             'vm_compute_crosschecked_cases': ncross,
             'exhaustive': self.exhaustive,
             'known_findings_hit': self.known_hits,
+            'coqchk': self.coqchk,
         }
         cov.update(self.extra)
         ev = {
